@@ -23,9 +23,7 @@ CONSTANTS KF_Shadow,   \* TRUE: the recorded finding "best pattern shadowed" is 
 Picks  == ndJsonDeserialize(EmitPrefix \o "picks.ndjson")
 TupleSource == IF Source = "all" THEN AllTuples ELSE {Picks[i] : i \in 1..Len(Picks)}
 
-RECURSIVE SumSeq(_)
-SumSeq(s) == IF Len(s) = 0 THEN 0 ELSE s[1] + SumSeq(Tail(s))
-ChunkOf(t) == SumSeq(t) % NChunks
+ChunkOf(t) == SumIdx(t) % NChunks
 
 ReqSeq == SetToSeq(Reqs)
 
@@ -39,12 +37,14 @@ OutJ(o, v, cls) == [sel |-> SelJ(o.sel), dsel |-> SelJ(o.dsel), v |-> v, cls |->
 Classes(D, m, u, o) ==
     (IF o.sel = {} THEN {"none"} ELSE
        UNION {LET P == {d.p : d \in {e \in D : Render(e.p) = s.norm}} IN
-              UNION {(IF EndsWild(p) THEN (IF MatchesStrict(p, u) THEN {"wild-tail"} ELSE {"wild-zero"})
+              UNION {(IF EndsWild(p) THEN (IF MatchesStrictX(p, u) THEN {"wild-tail"} ELSE {"wild-zero"})
                       ELSE IF ParamPositions(p) # {} THEN {"param"} ELSE {"exact-literal"})
                      \cup (IF ParamPositions(p) # {} /\ EndsWild(p) THEN {"param+wild"} ELSE {}) : p \in P}
               : s \in o.sel})
     \cup (IF WinAll(D, m, u, 0) # WinOwn(D, m, u, 0) THEN {"method-hidden"} ELSE {})
-    \cup (IF Cardinality({d \in D : Matches(d.p, u)}) >= 2 THEN {"overlap"} ELSE {})
+    \cup (IF Cardinality({d \in D : MatchesX(d.p, u)}) >= 2 THEN {"overlap"} ELSE {})
+    \cup (IF \E d \in WinAll(D, m, u, 0) \cup WinOwn(D, m, u, 0) : ~d.re THEN {"winner-disabled"} ELSE {})
+    \cup (IF Len(Host(u)) # 2 /\ \E d \in D : Matches(d.p, u) /\ ~MatchesX(d.p, u) THEN {"host-shape"} ELSE {})
 
 Group(t) ==
     LET ds   == DeclsOf(t)
@@ -52,11 +52,11 @@ Group(t) ==
         ords == SetToSeq(Orders(Len(t)))
     IN [tup    |-> t,
         decls  |-> [i \in 1..Len(ds) |-> [m |-> ds[i].m, h |-> Host(ds[i].p), p |-> Path(ds[i].p),
-                                          t |-> ds[i].id, r |-> ds[i].r, g |-> ds[i].g]],
+                                          t |-> ds[i].id, r |-> ds[i].r, g |-> ds[i].g, pl |-> ds[i].pl]],
         orders |-> ords,
         reqs   |-> [i \in 1..Len(ReqSeq) |-> [m |-> ReqSeq[i].m, h |-> Host(ReqSeq[i].u), p |-> Path(ReqSeq[i].u),
                                                \* how many declared patterns match this URL (overlap measure)
-                                               nm |-> Cardinality({d \in D : Matches(d.p, ReqSeq[i].u)})]],
+                                               nm |-> Cardinality({d \in D : MatchesX(d.p, ReqSeq[i].u)})]],
         exp    |-> [oi \in 1..Len(ords) |->
                      LET b == Build(Apply(ds, ords[oi])) IN
                      [ri \in 1..Len(ReqSeq) |->
